@@ -184,8 +184,8 @@ func ruleEligibility(w *World, r *Report) {
 // ---------------------------------------------------------------- MINSEL (overlap alignment)
 
 func ruleOverlapAlign(w *World, r *Report) {
-	r.Rule("MINSEL", "the extended overlap check brings both IDs to the per-axis minimum of their zooms: the hZoom/vZoom arguments of both integrate.ChangeExtendedSpatialIdsZoom calls are selections between field 0 (resp. 3) of the two IDs that yield the smaller value under all three orderings (comparison-controlled phi or builtin min)")
-	r.Rule("REUSE", "the zoom alignment of the overlap check is integrate.ChangeExtendedSpatialIdsZoom itself (resolved callee), applied to each ID alone")
+	r.Rule("MINSEL", "the extended overlap check brings both IDs to the per-axis minimum of their zooms: every hZoom/vZoom argument handed to integrate.ChangeExtendedSpatialIdsZoom is a selection between field 0 (resp. 3) of the two IDs that yields the smaller value under all three orderings (comparison-controlled phi, builtin min, or a private helper with that shape). A recognised selection that is not the minimum is a violation; an alignment that cannot be read is reported as INFO (no verdict)")
+	r.Rule("REUSE", "the zoom alignment of the overlap check is integrate.ChangeExtendedSpatialIdsZoom itself (resolved callee)")
 	fn := "detector.CheckExtendedSpatialIdsOverlap"
 	f := lookupByName(w, fn)
 	if f == nil {
@@ -194,74 +194,89 @@ func ruleOverlapAlign(w *World, r *Report) {
 	}
 	pos := w.Pos(f.Pos())
 	calls := callsTo(f, func(g *ssa.Function) bool { return funcIs(g, modPath+"/integrate", "ChangeExtendedSpatialIdsZoom") })
-	joint := false
-	if len(calls) == 1 {
-		// alternative form: both IDs in one call, answer = len(result) == 1 (the result is de-duplicated)
-		if vals, ok := sliceLiteral(calls[0].Call.Args[0]); ok && len(vals) == 2 {
-			p0, p1 := paramIndex(f, resolve(vals[0])), paramIndex(f, resolve(vals[1]))
-			if (p0 == 0 && p1 == 1) || (p0 == 1 && p1 == 0) {
-				joint = true
-			}
-		}
+	if len(calls) == 0 {
+		r.add("REUSE", fn+" / alignment calls", pos, Violated, "the overlap check no longer aligns zooms with integrate.ChangeExtendedSpatialIdsZoom")
+		return
 	}
-	if joint {
-		r.add("REUSE", fn+" / alignment calls", pos, Discharged, "both IDs are zoom-changed together by integrate.ChangeExtendedSpatialIdsZoom (de-duplicated result)")
-	} else {
-		if len(calls) != 2 {
-			r.add("REUSE", fn+" / alignment calls", pos, Violated, fmt.Sprintf("expected two calls of integrate.ChangeExtendedSpatialIdsZoom (one per ID) or one call with both IDs, found %d", len(calls)))
-			return
-		}
-		// each call gets one of the two IDs alone
-		got := map[int]bool{}
-		for _, c := range calls {
-			if vals, ok := sliceLiteral(c.Call.Args[0]); ok && len(vals) == 1 {
-				if pi := paramIndex(f, resolve(vals[0])); pi >= 0 {
-					got[pi] = true
-				}
-			}
-		}
-		if !got[0] || !got[1] {
-			r.add("REUSE", fn+" / alignment calls", pos, Violated, "the two alignment calls do not receive ID 1 and ID 2 as one-element lists")
-		} else {
-			r.add("REUSE", fn+" / alignment calls", pos, Discharged, "each ID is zoom-changed alone by integrate.ChangeExtendedSpatialIdsZoom")
-		}
-	}
-	// parsed zoom fields
-	find := func(p int, k int64) ssa.Value {
+	r.add("REUSE", fn+" / alignment calls", pos, Discharged, fmt.Sprintf("%d call site(s) of integrate.ChangeExtendedSpatialIdsZoom", len(calls)))
+	// parsed zoom fields in this function
+	find := func(g *ssa.Function, p *ssa.Parameter, k int64) ssa.Value {
 		var out ssa.Value
-		instrs(f, func(in ssa.Instruction) {
-			if ex, ok := in.(*ssa.Extract); ok && out == nil && parsedField(ex, f.Params[p], k) {
+		instrs(g, func(in ssa.Instruction) {
+			if ex, ok := in.(*ssa.Extract); ok && out == nil && parsedField(ex, p, k) {
 				out = ex
 			}
 		})
 		return out
 	}
-	h1, h2, v1, v2 := find(0, 0), find(1, 0), find(0, 3), find(1, 3)
-	if h1 == nil || h2 == nil || v1 == nil || v2 == nil {
-		r.add("MINSEL", fn+" / zoom fields", pos, Undecided, "fields 0 and 3 of both IDs are not parsed with strconv in this function")
-		return
+	// minOf: is value s the minimum of field k of the two ID parameters?  (ok, decided, why)
+	minOf := func(s ssa.Value, k int64) (bool, bool, string) {
+		s = resolve(s)
+		a, b := find(f, f.Params[0], k), find(f, f.Params[1], k)
+		if a != nil && b != nil {
+			ok, why := selectIs(f, s, a, b, true)
+			return ok, true, why
+		}
+		// helper form: H(field k of id1, field k of id2)
+		if hc, isCall := s.(*ssa.Call); isCall && calleeOf(hc) != nil && w.InModule(calleeOf(hc)) && len(hc.Call.Args) == 2 {
+			h := calleeOf(hc)
+			ok0 := splitField(hc.Call.Args[0], f.Params[0], k) && splitField(hc.Call.Args[1], f.Params[1], k)
+			ok1 := splitField(hc.Call.Args[0], f.Params[1], k) && splitField(hc.Call.Args[1], f.Params[0], k)
+			if (ok0 || ok1) && len(h.Params) == 2 {
+				var pa, pb ssa.Value
+				instrs(h, func(in ssa.Instruction) {
+					ex, ok := in.(*ssa.Extract)
+					if !ok || ex.Index != 0 {
+						return
+					}
+					c, ok := ex.Tuple.(*ssa.Call)
+					if !ok || !(calleeIs(c, "strconv", "Atoi") || calleeIs(c, "strconv", "ParseInt")) {
+						return
+					}
+					if resolve(c.Call.Args[0]) == ssa.Value(h.Params[0]) {
+						pa = ex
+					}
+					if resolve(c.Call.Args[0]) == ssa.Value(h.Params[1]) {
+						pb = ex
+					}
+				})
+				if pa != nil && pb != nil {
+					for _, ret := range returnsOf(h) {
+						if ok, why := selectIs(h, ret.Results[0], pa, pb, true); !ok {
+							return false, true, "helper " + w.FuncName(h) + ": " + why
+						}
+					}
+					return true, true, "private helper returning the minimum"
+				}
+			}
+		}
+		return false, false, "the target zoom expression could not be related to the parsed zoom fields of the two IDs"
 	}
-	for axis, pr := range map[string][3]interface{}{"hZoom": {1, h1, h2}, "vZoom": {2, v1, v2}} {
-		ai := pr[0].(int)
-		a, b := pr[1].(ssa.Value), pr[2].(ssa.Value)
-		s0 := resolve(calls[0].Call.Args[ai])
-		s1 := s0
-		if len(calls) > 1 {
-			s1 = resolve(calls[1].Call.Args[ai])
+	for _, it := range []struct {
+		axis string
+		arg  int
+		k    int64
+	}{{"hZoom", 1, 0}, {"vZoom", 2, 3}} {
+		key := fn + " / target " + it.axis
+		st, detail := Discharged, ""
+		for _, c := range calls {
+			ok, decided, why := minOf(c.Call.Args[it.arg], it.k)
+			switch {
+			case !decided:
+				if st == Discharged {
+					st, detail = Info, why
+				}
+			case !ok:
+				st, detail = Violated, "target "+it.axis+" is not the minimum of the two IDs' "+it.axis+": "+why
+			default:
+				if detail == "" {
+					detail = "target " + it.axis + " = min of the two IDs' " + it.axis + " (" + why + ")"
+				}
+			}
 		}
-		key := fn + " / target " + axis
-		if !equivValue(s0, s1) {
-			r.add("MINSEL", key, w.Pos(calls[1].Pos()), Violated, "the two IDs are brought to different target "+axis+" values")
-			continue
-		}
-		ok, why := selectIs(f, s0, a, b, true)
-		if ok {
-			r.add("MINSEL", key, w.Pos(calls[0].Pos()), Discharged, "target "+axis+" = min of the two IDs' "+axis+" ("+why+")")
-		} else {
-			r.add("MINSEL", key, w.Pos(calls[0].Pos()), Violated, "target "+axis+" is not the minimum of the two IDs' "+axis+": "+why)
-		}
+		r.add("MINSEL", key, w.Pos(calls[0].Pos()), st, detail)
 	}
-	// the answer compares element 0 of both results
+	// the answer: equality of the two aligned singletons, len(result)==1 of a joint call, or the identical-argument shortcut
 	n := 0
 	for _, ret := range returnsOf(f) {
 		if classifyReturn(f, ret) != retSuccess {
@@ -269,28 +284,35 @@ func ruleOverlapAlign(w *World, r *Report) {
 		}
 		n++
 		key := fmt.Sprintf("%s / success return#%d", fn, n)
-		b, ok := resolve(ret.Results[0]).(*ssa.BinOp)
-		good := false
-		if ok && b.Op == token.EQL && !joint {
-			x0 := firstElemOfCallResult(b.X)
-			y0 := firstElemOfCallResult(b.Y)
-			if x0 != nil && y0 != nil && x0 != y0 && (x0 == calls[0] || x0 == calls[1]) && (y0 == calls[0] || y0 == calls[1]) {
-				good = true
+		v := resolve(ret.Results[0])
+		good, decided := false, false
+		if b, ok := v.(*ssa.BinOp); ok && b.Op == token.EQL {
+			x0, y0 := firstElemOfCallResult(b.X), firstElemOfCallResult(b.Y)
+			if x0 != nil && y0 != nil {
+				decided = true
+				isAlign := func(c *ssa.Call) bool {
+					for _, cc := range calls {
+						if cc == c {
+							return true
+						}
+					}
+					return false
+				}
+				good = x0 != y0 && isAlign(x0) && isAlign(y0)
 			}
-		}
-		if ok && b.Op == token.EQL && joint {
-			// len(result) == 1
 			if lc, isL := resolve(b.X).(*ssa.Call); isL && builtinName(lc) == "len" {
-				if ex, isE := resolve(lc.Call.Args[0]).(*ssa.Extract); isE && ex.Index == 0 && ex.Tuple == ssa.Value(calls[0]) {
-					if k, isK := constInt(b.Y); isK && k == 1 {
-						good = true
+				if ex, isE := resolve(lc.Call.Args[0]).(*ssa.Extract); isE && ex.Index == 0 && len(calls) == 1 && ex.Tuple == ssa.Value(calls[0]) {
+					if k, isK := constInt(b.Y); isK {
+						decided = true
+						vals, isLit := sliceLiteral(calls[0].Call.Args[0])
+						good = k == 1 && isLit && len(vals) == 2
 					}
 				}
 			}
 		}
-		if !good {
-			// identical arguments overlap trivially: `if id1 == id2 { return true, nil }`
-			if k, isK := resolve(ret.Results[0]).(*ssa.Const); isK && k.Value != nil && k.Value.String() == "true" {
+		if k, isK := v.(*ssa.Const); isK && k.Value != nil {
+			decided = true
+			if k.Value.String() == "true" {
 				for _, blk := range f.Blocks {
 					t, _, ifi := ifSuccs(blk)
 					if ifi == nil {
@@ -305,10 +327,13 @@ func ruleOverlapAlign(w *World, r *Report) {
 				}
 			}
 		}
-		if good {
-			r.add("MINSEL", key, w.Pos(ret.Pos()), Discharged, "answer = equality of the two single zoom-aligned IDs (both results are singletons because neither axis is refined)")
-		} else {
+		switch {
+		case good:
+			r.add("MINSEL", key, w.Pos(ret.Pos()), Discharged, "answer = equality of the two zoom-aligned singleton results")
+		case decided:
 			r.add("MINSEL", key, w.Pos(ret.Pos()), Violated, "the success answer is not the equality of the two zoom-aligned IDs ("+describeValue(ret.Results[0])+")")
+		default:
+			r.add("MINSEL", key, w.Pos(ret.Pos()), Info, "the shape of the answer expression is not recognised ("+describeValue(ret.Results[0])+")")
 		}
 	}
 	if n == 0 {
